@@ -46,17 +46,17 @@ def synth_rs(r, last):
 def cases(ctx):
     r = ctx.rnd
     t = ctx.tier == "thorough"
-    rounds = 25 if t else 2
+    rounds = 60 if t else 2
     for _ in range(rounds):
         for last in FLAGS + NONFLAGS:
             rr, ss = synth_rs(r, last)
             yield {"k": "codec", "r": "%064x" % rr, "s": "%064x" % ss}
         for (rr, ss) in [(1, 1), (ec.N - 1, ec.N - 1), (1, ec.HALF_N), (ec.N - 1, ec.HALF_N + 1), (0x7F, 0x80), (0x80, 0x7F), (1 << 255, 1 << 248)]:
             yield {"k": "codec", "r": "%064x" % rr, "s": "%064x" % ss}
-    for _ in range(260 if t else 12):
+    for _ in range(600 if t else 12):
         x = r.choice([1, 2, ec.N - 1, ec.N - 2]) if r.random() < 0.3 else r.randrange(1, ec.N)
         yield {"k": "recover", "key": "%064x" % x, "compressed": r.random() < 0.5, "msg": gen.rbytes(r, r.choice([0, 1, 32, 100])).hex(), "hash": r.choice(["sha256", "sha256d"]), "mode": r.choice(["det", "det", "k", "rand"]), "reverse_k": r.random() < 0.3, "nonce": "%064x" % r.randrange(1, ec.N)}
-    for _ in range(40 if t else 3):
+    for _ in range(100 if t else 3):
         rr, ss = synth_rs(r, r.choice(FLAGS + NONFLAGS))
         good = ec.der_encode(rr, ss)
         yield {"k": "der_bad_family", "r": "%064x" % rr, "s": "%064x" % ss, "seed": r.getrandbits(30)}
